@@ -182,6 +182,12 @@ func (am *assetMgr) loadRep(logger *slog.Logger, assetPath string, as *m.Adaptat
 	}
 	if !am.writeRepData {
 		ok, err := rp.loadFromJSON(logger, am.vodFS, am.repDataDir, assetPath)
+		if ok && err != nil {
+			// A truncated or corrupt metadata file must not change what is served: scan instead
+			logger.Warn("Cannot use representation data file. Reading all segments instead", "err", err.Error())
+			rp = RepData{ID: rep.Id, ContentType: string(as.ContentType), Codecs: as.Codecs, MpdTimescale: 1}
+			ok = false
+		}
 		if ok {
 			logger.Debug("Loaded representation data from JSON")
 			return &rp, err
